@@ -6,7 +6,7 @@ cutadapt.cli.main on a corpus of pairs whose mates disagree on most predicates."
 import itertools
 import json
 
-from .. import clih, common, pairwise, routing
+from .. import bigdata, clih, common, pairwise, routing
 
 PROP = "C05"
 MOD = "vf.checks.c05"
@@ -180,10 +180,53 @@ def _multicore(sc, o, outs, r1, r2, wd, res):
         res["viol"].append(("multicore:sync", "with 2 cores: " + fail, dict(scenario=sc, schedule=list(sched))))
 
 
+def run_big(layout):
+    """Synchronisation at realistic size: 36 000 pairs (150 / 100 nt) through real processes with three cores and the DEFAULT buffer
+    size, records growing on output (-y): every output pair of files must hold the same ids at the same rank, and every input pair
+    must be present exactly once, in input order."""
+    import os
+    import subprocess
+
+    wd = clih.fresh_dir("c05big-" + layout)
+    i1, i2 = os.path.join(wd, "r1.fq"), os.path.join(wd, "r2.fq")
+    bigdata.paired(i1, i2)
+    o1, o2 = os.path.join(wd, "o1.fq"), os.path.join(wd, "o2.fq")
+    argv = ["-j", "3", "-a", f"a1={bigdata.TRUSEQ1}", "-A", f"a2={bigdata.TRUSEQ2}", "-y", " sample=LIB0423_S7 adapter={name}"]
+    argv += (["--interleaved", "-o", o1] if layout == "interleaved" else ["-o", o1, "-p", o2]) + [i1, i2]
+    fail = None
+    try:
+        r = common.run_group([common.PY, "-m", "cutadapt"] + argv, timeout=600)
+        if r.returncode != 0:
+            fail = f"run failed: {r.returncode} {r.stderr.decode(errors='replace')[-200:]}"
+    except subprocess.TimeoutExpired:
+        fail = "did not terminate within 600 s"
+    if fail is None:
+        ids_in = [ln.split()[0][1:] for k, ln in enumerate(open(i1)) if k % 4 == 0]
+        a = [ln.split()[0][1:] for k, ln in enumerate(open(o1)) if k % 4 == 0]
+        if layout == "interleaved":
+            a, b = a[0::2], a[1::2]
+        else:
+            b = [ln.split()[0][1:] for k, ln in enumerate(open(o2)) if k % 4 == 0]
+        if len(a) != len(b):
+            fail = f"R1 output holds {len(a)} records, R2 output {len(b)}"
+        elif a != b:
+            k = next(i for i in range(len(a)) if a[i] != b[i])
+            fail = f"record {k} of the R1 and R2 output come from different pairs ({a[k]} / {b[k]})"
+        elif a != ids_in:
+            fail = f"{len(ids_in)} pairs went in, {len(a)} came out" + ("" if len(a) != len(ids_in) else " in another order")
+    clih.rmtree(wd)
+    return dict(layout=layout, failure=fail, pairs=36000)
+
+
 def run(tier):
     R = common.Result(PROP, tier, "exploration")
     sh = shards(tier)
     out = common.pmap(MOD, "run_shard", sh)
+    big = common.pmap(MOD, "run_big", ["two-files", "interleaved"])
+    for r in big:
+        if r["failure"]:
+            R.violation(f"realistic-size:{r['layout']}", "36 000 pairs, three cores, default buffer size: " + r["failure"], dict(big=r["layout"]))
+    R.coverage["realistic_size_runs"] = [dict(layout=r["layout"], pairs=r["pairs"]) for r in big]
     tot = {}
     for r in out:
         for k, v in r.items():
@@ -210,6 +253,10 @@ def replay(path):
     with open(path) as f:
         v = json.load(f)
     print(json.dumps(v, indent=1)[:3000])
+    if "big" in v["case"]:
+        r = run_big(v["case"]["big"])
+        print("replayed:", r["failure"] or "fine")
+        return 1 if r["failure"] else 0
     sc = v["case"]["scenario"]
     o, outs = opts_of(sc)
     r1, r2 = _corpora()
